@@ -829,3 +829,92 @@ func (c *C) writesKeyParams(fn *ssa.Function) []int {
 	c.wkMemo[fn] = out
 	return out
 }
+
+// R20t: the tree's size is changed at most once per structural change; R20o: the ordering compares raw scores.
+var rR20t = RuleRef{Name: "R20t", Doc: "sorted-set tree bookkeeping, structural part only: a function that updates the tree's size field never also calls itself on the same path (a recursive removal that decrements per visited node counts a two-child delete twice); the node comparator orders by the raw stored scores (exact <, >, == on the Score fields, no tolerance or arithmetic), so that the order is total and agrees with the equality used elsewhere", Run: func(c *C) {
+	n := 0
+	for _, fn := range c.P.allFuncs("memdb") {
+		writes := false
+		for _, b := range fn.Blocks {
+			for _, in := range b.Instrs {
+				if st, ok := in.(*ssa.Store); ok {
+					if fa, ok := st.Addr.(*ssa.FieldAddr); ok && fieldName(fa) == "len" && namedOf(fa.X.Type()) == "Btree" {
+						writes = true
+					}
+				}
+			}
+		}
+		if !writes {
+			continue
+		}
+		n++
+		self := ""
+		for _, b := range fn.Blocks {
+			for _, in := range b.Instrs {
+				if ci, ok := in.(ssa.CallInstruction); ok {
+					if cf := callee(ci); cf != nil && (cf == fn || origin(cf) == origin(fn)) {
+						self = callName(ci)
+					}
+				}
+			}
+		}
+		good := true
+		if self != "" {
+			of := c.orderFlow(fn, nil, true, "W|len", "C|"+self)
+			for _, b := range fn.Blocks {
+				if len(b.Instrs) == 0 {
+					continue
+				}
+				if ret, ok := b.Instrs[len(b.Instrs)-1].(*ssa.Return); ok {
+					states, _ := of.States(ret)
+					for _, st := range states {
+						if st["W|len"] && st["C|"+self] {
+							good = false
+						}
+					}
+				}
+			}
+		}
+		c.Add("R20t", fnName(fn), "the size field is updated at most once per activation chain (no size update together with a self-call on one path)", fn.Pos(), good, "a recursive function that changes the size on a path that also recurses counts one structural change several times")
+	}
+	c.Count("R20t_size_writers", n)
+	c.Min("R20t_size_writers", 2)
+	comp := c.P.Func("memdb", "SortedSetNode.Comp")
+	if comp == nil {
+		c.Undecided("R20t", "anchor (*SortedSetNode).Comp")
+		return
+	}
+	ncmp, raw := 0, true
+	why := ""
+	for _, b := range comp.Blocks {
+		for _, in := range b.Instrs {
+			bo, ok := in.(*ssa.BinOp)
+			if !ok {
+				continue
+			}
+			bt, isB := bo.X.Type().Underlying().(*types.Basic)
+			if !isB || bt.Info()&types.IsFloat == 0 {
+				continue
+			}
+			switch bo.Op {
+			case token.LSS, token.GTR, token.EQL, token.LEQ, token.GEQ, token.NEQ:
+				ncmp++
+				for _, side := range []ssa.Value{bo.X, bo.Y} {
+					u, ok := side.(*ssa.UnOp)
+					isScore := false
+					if ok {
+						if fa, ok := u.X.(*ssa.FieldAddr); ok && fieldName(fa) == "Score" {
+							isScore = true
+						}
+					}
+					if !isScore {
+						raw, why = false, "a score comparison operand is "+canon(side)+" (not a stored Score field)"
+					}
+				}
+			default:
+				raw, why = false, "arithmetic on scores inside the comparator ("+bo.Op.String()+")"
+			}
+		}
+	}
+	c.Add("R20t", fnName(comp), "the comparator orders by the raw stored scores", comp.Pos(), raw && ncmp >= 2, why)
+}}
